@@ -264,6 +264,8 @@ impl DOPRI5 {
 
         // --- Main integration loop ---
         loop {
+            #[cfg(feature = "verif")]
+            crate::verif::tick(crate::verif::DOPRI5_MAIN);
             // Check for maximum number of steps
             if steps.total > nmax {
                 status = Status::NeedLargerNMax;
@@ -362,6 +364,8 @@ impl DOPRI5 {
 
                 // Stiffness detection
                 if (steps.accepted % nstiff == 0) || (iasti > 0) {
+                    #[cfg(feature = "verif")]
+                    crate::verif::tick(crate::verif::DOPRI5_STIFF_TEST);
                     let mut stnum = 0.0_f64;
                     let mut stden = 0.0_f64;
                     for i in 0..n {
@@ -450,6 +454,8 @@ impl DOPRI5 {
                 }
             } else {
                 // Step rejected
+                #[cfg(feature = "verif")]
+                crate::verif::tick(crate::verif::DOPRI5_REJECT);
                 hnew = h / facc1.min(fac11 / safety_factor);
                 reject = true;
                 if steps.accepted > 1 {
